@@ -226,6 +226,11 @@ func (_this *arrayEncoderEngine) addBooleanArrayData(data []byte) {
 }
 
 func (_this *arrayEncoderEngine) AddArrayData(data []byte) {
+	if len(data) == 0 {
+		// Nothing to write (and no element separator either).
+		return
+	}
+
 	if _this.arrayElementBitWidth == 1 {
 		_this.addBooleanArrayData(data)
 		return
